@@ -160,7 +160,6 @@ Inductive arg :=
 
 Record site := {
   s_file : N; s_line : N; s_level : level; s_args : list arg;
-  s_known : bool;        (* matches an OPEN entry of known_findings.json *)
 }.
 
 Definition safe_arg (a : arg) : bool :=
